@@ -1304,17 +1304,25 @@ impl ApiEndpointVersions {
             (
                 ApiEndpointVersions::From(earliest),
                 ApiEndpointVersions::FromUntil(OrderedVersionPair {
-                    earliest: _,
+                    earliest: pair_earliest,
                     until,
                 }),
-            ) => earliest < until,
+            ) => {
+                // A "from A until A" range contains exactly A, so it overlaps
+                // with "from A" (and any earlier "from") as well.
+                earliest < until
+                    || (earliest == until && pair_earliest == until)
+            }
             (
                 ApiEndpointVersions::FromUntil(OrderedVersionPair {
-                    earliest: _,
+                    earliest: pair_earliest,
                     until,
                 }),
                 ApiEndpointVersions::From(earliest),
-            ) => earliest < until,
+            ) => {
+                earliest < until
+                    || (earliest == until && pair_earliest == until)
+            }
 
             (
                 u @ ApiEndpointVersions::Until(_),
